@@ -1,6 +1,7 @@
 (* C04 — correlation estimators and the n(z) formula are applied as documented.
    Statements only; proofs are in Proofs/EstimatorsP.v (and Proofs/JackknifeP.v). *)
-From Verif Require Import Prelude Jackknife JackknifeP Estimators EstimatorsP.
+From Verif Require Import Prelude Jackknife JackknifeP Estimators EstimatorsP EstimatorsRP.
+From Coq Require Import Reals.
 Open Scope Q_scope.
 
 (* Landy-Szalay as coded, ((dd - dr) + (rr - rd)) / rr, is (DD - DR - RD + RR) / RR *)
@@ -88,6 +89,20 @@ Proof. exact nz_normalised_integral_q. Qed.
 Print Assumptions C04_nz_normalised_integral_q.
 
 (* non-vacuity *)
+(* over the reals (standard real-number axioms): the documented formula w_sp / sqrt(dz^2 w_ss w_pp) is exactly
+   the value that the squared form with sign (C04_nz_def, C04_nz_sq_unique) characterises *)
+Theorem C04_nz_sqrt_form : forall (wsp dz wss wpp : R), (0 < dz * dz * wss * wpp)%R ->
+  let y := nzR wsp dz wss wpp in
+  (y * y * (dz * dz * wss * wpp) = wsp * wsp /\ (0 <= wsp -> 0 <= y) /\ (wsp <= 0 -> y <= 0))%R.
+Proof. exact nz_sqrt_form. Qed.
+Print Assumptions C04_nz_sqrt_form.
+
+Theorem C04_nz_sqrt_unique : forall (wsp dz wss wpp y : R), (0 < dz * dz * wss * wpp)%R ->
+  (y * y * (dz * dz * wss * wpp) = wsp * wsp)%R -> ((0 <= wsp)%R -> (0 <= y)%R) -> ((wsp <= 0)%R -> (y <= 0)%R) ->
+  y = nzR wsp dz wss wpp.
+Proof. exact nz_sqrt_unique. Qed.
+Print Assumptions C04_nz_sqrt_unique.
+
 Example C04_concrete_estimators :
   Qred (estimate 6 (Some 2) None (Some 4)) = 3 # 2        (* LS with rd := dr : (6-2-2+4)/4 *)
   /\ Qred (estimate 6 (Some 2) (Some 3) (Some 4)) = 5 # 4  (* LS : (6-2-3+4)/4 *)
